@@ -16,12 +16,13 @@ Stages: proofs (Properties_C10.v) -> correspondence of the Coq model (vm_compute
 """
 from __future__ import annotations
 
+import copy
 import json
 import re
 import threading
 
 from harness import core
-from harness.core import cZ, cbool, cjson, clist, copt, cstr, ctuple, pstr
+from harness.core import cN, cZ, cbool, cjson, clist, copt, cstr, ctuple, pstr
 
 LEVEL = "proof"
 IMPORTS = ["Common.Str", "Common.Json", "C10.Model_C10"]
@@ -741,6 +742,8 @@ def run(chk: core.Check):
         "is outside the model (VOpaque)",
         "the parameter strategy never draws a name listed in exclude (contract of get_parameters_strategy; needed by C10_link_values_override_generated)",
         "Hypothesis draws from Bundle only values previously added to it (a link is followed only from responses stored in its bundle)",
+        "the case id identifies the source exchange (OpenApiLink.extract is memoised per case id; hypothesis of C10_link_extraction_independent_of_history): "
+        "a case is not mutated between two evaluations of a link on it",
     ]
     chk.rule = (
         "expression strings from one PRNG (VERIF_SEED): bare expressions over all sources x names (incl. stop characters . $ # { }) x pointers "
@@ -764,6 +767,7 @@ def run(chk: core.Check):
     _timed(chk, stage_machine, rng, (80 if quick else 600))
     _timed(chk, stage_nested, rng, (200 if quick else 3000))
     _timed(chk, stage_links, rng, (30 if quick else 500))
+    _timed(chk, stage_link_history, rng, (24 if quick else 300) * budget)
     for f in chk.findings:
         chk.known(f, witness_fails(f["witness"]))
     _timed(chk, stage_live, rng, (2 if quick else 25) * budget)
@@ -1866,6 +1870,237 @@ def stage_links(chk, rng, n):
     chk.stages["correspondence_links"] = stats
 
 
+# ----------------------------------------------------------------------------------------
+# histories of evaluations on ONE link object (memo per source case id, Transitions holding references to their inner dicts)
+# ----------------------------------------------------------------------------------------
+HISTORY_PARAM_EXPRS = ["$response.body#/id", "$response.body#/id", "$response.body#/items/0/name", "$response.body#/items/1/name", "$response.body#/n", "$response.body#/z",
+                       "$response.body#/e", "$response.body#/f", "$response.body#/missing", "$request.body#/id", "$request.query.q", "$request.query.z", "$request.query.e",
+                       "$request.path.id", "$request.header.X-Token", "$response.header.Location", "$response.header.Location#regex:/items/(\\d+)",
+                       "$request.query.q#regex:id=(.*)", "$response.header.X-Token", "u-{$response.body#/id}", "{$response.body#/id}-{$request.query.q}", "$statusCode", "$method",
+                       "const", 5, "$url"]
+HISTORY_BODY_EXPRS = ["$response.body#/id", {"ref": "$response.body#/id", "lit": 1}, {"items": [{"order": "$response.body#/id"}], "q": "$request.query.q"},
+                      {"$response.body#/id": "$response.header.Location"}, "$response.body", {"x": "$response.body#/missing"}]
+HISTORY_FIXED = [[0, 1, 0], [0, 1, 0, 1], [0, 1, 2, 0, 1, 2], [0, 0, 1, 1, 0], [1, 0, 0, 1], [0, 1, 2, 1, 0], list(range(10)) + [0, 9, 1, 0]]
+
+
+def gen_history_ctx(rng, i):
+    """Source exchange number i: every field a link expression may read differs between the exchanges (ids, names, tokens) or is falsy / absent
+    in some of them only."""
+    c = copy.deepcopy(BASE_CTX)
+    rb = {"id": rng.choice([i + 1, 100 + i, f"id{i}", i + 1, 0 if i == 1 else i + 50]), "items": [{"name": f"a{i}"}, {"name": rng.choice(["n1", f"b{i}"])}],
+          "n": rng.choice([None, i + 1]), "z": rng.choice([0, i + 1]), "e": rng.choice(["", f"e{i}"]), "f": bool(i % 2)}
+    if rng.random() < 0.15:
+        del rb["id"]
+    c["resp_body"] = rb
+    c["query"] = {"q": rng.choice([f"id={i}", f"q{i}", ""]), "z": rng.choice([0, i + 1]), "e": rng.choice(["", f"qe{i}"])}
+    if rng.random() < 0.2:
+        del c["query"]["q"]
+    c["path"] = {"id": rng.choice([f"p{i}", i, f"p{i}"])}
+    c["headers"] = {"X-Token": f"tok{i}"}
+    c["body"] = {"id": 7 * i + 1, "z": rng.choice([0, i])}
+    c["resp_headers"] = {"location": [f"/items/{40 + i}"], "x-token": [f"t{i}"]}
+    c["status"] = 201
+    c["method"] = "post"
+    return c
+
+
+def gen_history_link(rng):
+    params = {}
+    for name in rng.sample(["tid", "tq", "tq2", "X-T", "tc", "path.tid", "query.tq", "header.X-T", "cookie.tc", "query.extra", "query.tq2"], rng.choice([1, 2, 3, 4, 6])):
+        params[name] = rng.choice(HISTORY_PARAM_EXPRS)
+    d = {"operationId": "target", "parameters": params}
+    if rng.random() < 0.5:
+        d["requestBody"] = rng.choice(HISTORY_BODY_EXPRS)
+    return d
+
+
+def denoted_parameters(d, c, url):
+    """(container, name) -> the value the LAST link parameter of that name denotes on the exchange c (reference evaluator), where decidable."""
+    groups = {}
+    for pname, e in d.get("parameters", {}).items():
+        container, nm = container_of(pname)
+        exp = None
+        if isinstance(e, str):
+            r = ref_evaluate(e, c, url)
+            if r is not None and r[0] == "value" and r[1] != OPAQUE and expr_region(e, c) is None:
+                exp = ("value", r[1])
+        elif not isinstance(e, (list, dict)):
+            exp = ("value", e)
+        groups.setdefault((container, nm), []).append((e, exp))
+    return {k: (v[-1][0], v[-1][1][1]) for k, v in groups.items() if v[-1][1] is not None}
+
+
+def stage_link_history(chk, rng, n):
+    """Sequences of OpenApiLink.extract on ONE link object over several source exchanges with repeats: every Transition returned must be the
+    evaluation of the link on ITS OWN source exchange - when it is returned, and still when it is read again after the whole sequence."""
+    from schemathesis.core.result import Ok
+    from schemathesis.specs.openapi.stateful.links import get_all_links
+
+    cases = []
+    for k in range(n):
+        d = gen_history_link(rng)
+        if k < len(HISTORY_FIXED):
+            seq = HISTORY_FIXED[k]
+            nsrc = max(seq) + 1
+        else:
+            nsrc = rng.choice([2, 2, 3, 3, 4])
+            seq = [rng.randrange(nsrc) for _ in range(rng.choice([3, 4, 5, 6, 8]))]
+            if rng.random() < 0.5:
+                a, b = rng.sample(range(nsrc), 2)
+                seq = [a, b, a] + seq
+        ctxs = [gen_history_ctx(rng, i) for i in range(nsrc)]
+        cases.append((d, ctxs, seq))
+    # model side
+    exprs, preps = [], []
+    for d, ctxs, seq in cases:
+        outputs = [make_output_for_link(c) for c in ctxs]
+        urls = [safe_url(o) or "http://127.0.0.1:1/" for o in outputs]
+        strings = list(all_strings(list(d.get("parameters", {}).values()))) + list(all_strings(d.get("requestBody")))
+        ok, table = [], []
+        for c in ctxs:
+            ok, t = regex_tables(strings, c)
+            table.extend(row for row in t if row not in table)
+        rx_ok, rx_ex = c_rx(ok, table)
+        tbl = clist([c_ctx(c, u) for c, u in zip(ctxs, urls)], "ctx")
+        xs = clist([cN(i) for i in seq], "N")
+        L = c_link(d)
+        exprs.append(f"(link_history {rx_ok} {rx_ex} {L} false {tbl} {xs}, snd (link_history {rx_ok} {rx_ex} {L} true {tbl} {xs}))")
+        preps.append((outputs, urls))
+    model = coq_eval(exprs)
+
+    def p_view(v):
+        k, params, body = v
+        return (int(k), {pstr(cn): {pstr(nm): p_xval(x) for nm, x in data} for cn, data in params}, None if body is None else ("set", p_xval(body[1])))
+
+    def view_eq(impl, mod):
+        (ik, ip, ib), (mk, mp, mb) = impl, mod
+        if ik != mk:
+            return False
+        if not (strict_eq({k: dict(v) for k, v in ip.items()}, mp) or opaque_eq(mp, ip)):
+            return False
+        return strict_eq(mb, ib) or bool(mb and ib and opaque_eq(mb[1], ib[1]))
+
+    stats = {"histories": 0, "extractions": 0, "memo_hits_after_other_source": 0, "evictions": 0, "denotation_oracle": 0, "fresh_object_oracle": 0,
+             "derived_cases": 0, "shared_variant_would_differ": 0, "invalid_links": 0}
+    for (d, ctxs, seq), (outputs, urls), (m_ret, m_end, m_shared_end) in zip(cases, preps, model):
+        canon = {"link": d, "sources": ctxs, "sequence": seq}
+        schema = link_schema(d)
+        results = [r for _, r in get_all_links(schema["/post/{id}"]["POST"])]
+        if not isinstance(results[0], Ok):
+            stats["invalid_links"] += 1
+            continue
+        link = results[0].ok()
+        stats["histories"] += 1
+        chk.seen({"history": canon}, len(set(seq)) > 1 and len(seq) > len(set(seq)))
+        ids = {o.case.id: i for i, o in enumerate(outputs)}
+
+        def view(tr):
+            p, b = canon_extracted(tr)
+            return (ids.get(tr.parent_id, -1), copy.deepcopy(p), copy.deepcopy(b))
+
+        transitions, at_return = [], []
+        for pos, i in enumerate(seq):
+            tr = link.extract(outputs[i])
+            transitions.append(tr)
+            at_return.append(view(tr))
+            stats["extractions"] += 1
+            if i in seq[:pos] and seq[pos - 1] != i:
+                stats["memo_hits_after_other_source"] += 1
+        if len(set(seq)) > 8:
+            stats["evictions"] += 1
+        at_end = [view(tr) for tr in transitions]
+        # direct calls of extract_parameters (no memo) must not disturb the Transitions handed out before
+        direct = [canon_extracted_params(link.extract_parameters(o)) for o in outputs]
+        at_end2 = [view(tr) for tr in transitions]
+        m_ret = [p_view(v) for v in m_ret]
+        m_end = [p_view(v) for v in m_end]
+        if [p_view(v) for v in m_shared_end] != m_end:
+            stats["shared_variant_would_differ"] += 1
+        # ---- tie with the model state machine
+        for what, impl_views, mod_views in (("at return", at_return, m_ret), ("re-read after the sequence", at_end, m_end),
+                                            ("re-read after direct extract_parameters calls", at_end2, m_end)):
+            bad = [pos for pos, (a, b) in enumerate(zip(impl_views, mod_views)) if not view_eq(a, b)]
+            if bad or len(impl_views) != len(mod_views):
+                chk.disagree(f"OpenApiLink.extract over a history ({what}) vs Model_C10.link_history", canon,
+                             {"step": bad[:1], "views": impl_views}, mod_views)
+                break
+        # ---- oracle 1 (independent of the model): a FRESH link object evaluating only that exchange
+        fresh_views = []
+        for i, o in enumerate(outputs):
+            fl = [r for _, r in get_all_links(link_schema(d)["/post/{id}"]["POST"])][0].ok()
+            p, b = canon_extracted(fl.extract(o))
+            fresh_views.append((i, p, b))
+        for what, views in (("when returned", at_return), ("when read again after the sequence", at_end), ("after direct extract_parameters calls", at_end2)):
+            for pos, (i, v) in enumerate(zip(seq, views)):
+                stats["fresh_object_oracle"] += 1
+                want = fresh_views[i]
+                if v[0] != want[0] or not strict_eq(v[1], want[1]) or not strict_eq(v[2], want[2]):
+                    differing = {f"{cn}.{nm}": {"transition": v[1].get(cn, {}).get(nm, "<ABSENT>"), "own source": x}
+                                 for cn, data in want[1].items() for nm, x in data.items() if not strict_eq(v[1].get(cn, {}).get(nm, "<ABSENT>"), x)}
+                    chk.fail("the Transition a link returns for a source exchange depends on which other exchanges the same link evaluated before / after: "
+                             "its parameters are not the evaluation of the link on its own source exchange (" + what + ")", canon,
+                             {"step": pos, "source": i, "parent_id_names_source": v[0], "differs": differing,
+                              "source_response_body": ctxs[i]["resp_body"], "history_so_far": seq[:pos + 1] if what == "when returned" else seq})
+                    break
+            else:
+                continue
+            break
+        for i, p in enumerate(direct):
+            if not strict_eq(p, fresh_views[i][1]):
+                chk.fail("extract_parameters on a source exchange is not the evaluation of the link on that exchange after the link evaluated other exchanges", canon,
+                         {"source": i, "extracted": p, "own source": fresh_views[i][1]})
+                break
+        # ---- oracle 2: the denotation of every parameter expression on the OWN source exchange (reference evaluator)
+        done = False
+        for what, views in (("when returned", at_return), ("when read again after the sequence", at_end)):
+            for pos, (i, v) in enumerate(zip(seq, views)):
+                for (container, nm), (e, exp) in denoted_parameters(d, ctxs[i], urls[i]).items():
+                    stats["denotation_oracle"] += 1
+                    got = v[1].get(container, {}).get(nm, "<ABSENT>")
+                    if not strict_eq(got, exp):
+                        chk.fail("the value a Transition holds for a link parameter is not what its expression denotes on the source exchange the Transition names as parent", canon,
+                                 {"step": pos, "source": i, "when": what, "parameter": f"{container}.{nm}", "expression": e, "transition": got, "denoted": exp,
+                                  "source_response_body": ctxs[i]["resp_body"]})
+                        done = True
+                        break
+                if done:
+                    break
+            if done:
+                break
+        # ---- the derived request for the LAST step (a memo hit in most histories): it carries what the expressions denote on that source
+        i = seq[-1]
+        try:
+            step = draw_step_input(schema, link, outputs[i])
+        except Exception as exc:  # noqa: BLE001
+            chk.count(f"history:draw_failed:{type(exc).__name__}")
+            continue
+        stats["derived_cases"] += 1
+        case = step.case
+        final = {"path_parameters": canon_impl_value(case.path_parameters), "query": canon_impl_value(case.query),
+                 "headers": canon_impl_value(dict(case.headers) if case.headers is not None else None), "cookies": canon_impl_value(case.cookies)}
+        if step.transition is not None and ids.get(step.transition.parent_id) != i:
+            chk.fail("the derived step names another parent than the exchange it was derived from", canon, {"source": i, "parent": ids.get(step.transition.parent_id)})
+        for (container, nm), (e, exp) in denoted_parameters(d, ctxs[i], urls[i]).items():
+            if container is None or (container == "headers" and nm != "X-T"):
+                continue
+            sent = (final[container] or {}).get(nm, "<ABSENT>")
+            want = GEN_CONST[container].get(nm, "<ABSENT>") if exp is None or exp == UNRES else exp
+            if not strict_eq(sent, want):
+                chk.fail("the request derived from a source exchange that the link evaluated before (memo hit) does not carry the value the link expression "
+                         "denotes on that exchange", canon, {"source": i, "parameter": f"{container}.{nm}", "expression": e, "denoted": exp, "sent": sent,
+                                                            "source_response_body": ctxs[i]["resp_body"]})
+                break
+        if stats["histories"] % 10 == 1:
+            chk.sample({"history": seq, "link": d, "views_at_end": at_end})
+    chk.stages["correspondence_link_history"] = stats
+
+
+def canon_extracted_params(params):
+    from schemathesis.core.result import Ok
+
+    return {container: {name: (canon_impl_value(x.value.ok()) if isinstance(x.value, Ok) else "<ERR>") for name, x in data.items()} for container, data in params.items()}
+
+
 _LINK_SRC = None
 
 
@@ -1996,6 +2231,11 @@ def stage_live(chk, rng, runs):
     stats = {"runs": 0, "source_exchanges": 0, "link_requests": 0, "by_link": {}, "unresolvable_cases": 0}
     for run_no in range(runs):
         script = [rng.choice([201, 201, 201, 404, 400, 422, 500, 200, 503, 503, "201-noid"]) for _ in range(400)]
+        # histories: every second run answers 201 only and has longer scenarios, so that several source exchanges are alive in the bundle of link A
+        # at once and a source is followed again AFTER the link was followed from another one (POST, POST, GET from #1, GET from #2, GET from #1 ...)
+        many_sources = run_no % 2 == 1
+        if many_sources:
+            script = [201] * 400
         exchanges = []
         lock = threading.Lock()
 
@@ -2019,12 +2259,36 @@ def stage_live(chk, rng, runs):
             return 200, [("Content-Type", "application/json")], b"{}"
 
         try:
-            _, requests_seen = run_engine(live_schema(), responder, phases=["stateful"], max_examples=(5 if chk.tier == "quick" else 15), seed=rng.randrange(1, 10**6), checks=[], step_count=6)
+            events, requests_seen = run_engine(live_schema(), responder, phases=["stateful"], max_examples=((8 if many_sources else 5) if chk.tier == "quick" else 15),
+                                               seed=rng.randrange(1, 10**6), checks=[], step_count=(12 if many_sources else 6))
         except Exception as exc:  # noqa: BLE001
             chk.count(f"live:engine_error:{type(exc).__name__}")
             continue
         stats["runs"] += 1
         stats["source_exchanges"] += len(exchanges)
+        # who derives from whom: ScenarioRecorder.cases[*].parent_id (the engine's own record), case ids as seen on the wire
+        parent_of = {}
+        for ev in events:
+            recorder = getattr(ev, "recorder", None)
+            if recorder is None:
+                continue
+            order = []
+            for case_id, node in recorder.cases.items():
+                if node.parent_id is not None and node.transition is not None:
+                    parent_of[case_id] = node.parent_id
+                    if "getA" in str(node.transition.id) or "/ta/" in str(node.transition.id):
+                        order.append(node.parent_id)
+            for pos in range(2, len(order)):
+                if order[pos] != order[pos - 1] and order[pos] in order[:pos - 1]:
+                    stats["source_followed_again_after_another"] = stats.get("source_followed_again_after_another", 0) + 1
+
+        def case_id_of(item):
+            for k, v in item["headers"]:
+                if k.lower() == "x-schemathesis-testcaseid":
+                    return v
+            return None
+
+        exchange_of_case = {case_id_of(ex["request"]): ex for ex in exchanges}
 
         def src_q(ex, name="q"):
             return parse_qs(urlsplit(ex["request"]["target"]).query, keep_blank_values=True).get(name, [None])[0]
@@ -2065,7 +2329,12 @@ def stage_live(chk, rng, runs):
                 qs = {k: v[0] for k, v in parse_qs(parts.query, keep_blank_values=True).items()}
                 if qs.get("own") != "OWN":
                     chk.fail("a generated required parameter not named by the link is missing", canon)
-                for ex in exchanges:
+                # the exchange this request was derived FROM (the parent the engine recorded for it): the request must carry the values of
+                # that exchange, not of any other live one
+                own = exchange_of_case.get(parent_of.get(case_id_of(item)))
+                if own is not None:
+                    stats["parent_known"] = stats.get("parent_known", 0) + 1
+                for ex in (exchanges if own is None else [own]):
                     if ex["status"] != 201 or ex["request"]["t"] > item["t"]:
                         continue
                     n = ex["n"]
@@ -2083,7 +2352,7 @@ def stage_live(chk, rng, runs):
                     if src_q(ex, "n") is not None and src_q(ex, "s") is not None:
                         want["tz"] = f"n{src_q(ex, 'n')}-{src_q(ex, 's')}|"
                     ok = all(qs.get(k) == v for k, v in want.items()) and got_id == (str(n) if has_id else str(GEN_ID))
-                    if not ok and (got_id == str(n) or qs.get("tok") == f"t{n}"):
+                    if not ok and (got_id == str(n) or qs.get("tok") == f"t{n}" or own is not None):
                         closest = {"source_exchange": {"n": n, "request": ex["request"]["target"], "X-H": src_header(ex, "X-H"), "request_body": src_body(ex),
                                                        "response_body": ex["body"]},
                                    "differs (name: denoted, sent)": {k: [v, qs.get(k)] for k, v in want.items() if qs.get(k) != v}}
@@ -2127,7 +2396,10 @@ def stage_live(chk, rng, runs):
                 continue
             stats["by_link"][link] = stats["by_link"].get(link, 0) + 1
             if not explained:
-                chk.fail(f"request derived through link {link} is not what the link's expressions denote on any source exchange with a matching status", canon,
+                what = (f"request derived through link {link} is not what the link's expressions denote on the source exchange it was derived from (the parent recorded by the engine)"
+                        if link == "A" and own is not None else
+                        f"request derived through link {link} is not what the link's expressions denote on any source exchange with a matching status")
+                chk.fail(what, canon,
                          closest or {"exchanges": [{k: ex[k] for k in ("n", "status", "body")} for ex in exchanges][:8]})
             elif stats["link_requests"] % 25 == 1:
                 chk.sample({"live_link": link, "request": canon})
